@@ -229,7 +229,7 @@ package fiber
 // segment, contains no slash. (A value that swallows all of s because its delimiter does not occur cannot
 // lead to a match: the following literal then has nothing to match.)
 //@ func findParamLen
-//@   props C02 C07
+//@   props C02 C07 C03
 //@   pure
 //@   requires param-length: segment.Length == 0 || segment.Length == 1
 //@   ensures in-range: 0 <= result && result <= len(s)
@@ -239,6 +239,16 @@ package fiber
 // empty) does not occur in it - getMatch then fails at that literal (see its invariant named-slash-is-pending-failure)
 //@   ensures slash-only-when-delimiter-missing: !segment.IsGreedy && !noSlash(s[:result]) ==> result == len(s) && segment.ComparePart != "" && segment.ComparePart != "/"
 //@   ensures slash-only-when-delimiter-missing-in-folded-path: forallS(p, foldPrefix(s, p) && !segment.IsGreedy && !noSlash(p[:result]) ==> result == len(s) && segment.ComparePart != "" && segment.ComparePart != "/")
+// C03 (completeness side, from the property: "values that create no additional occurrence of a literal that follows a
+// parameter" are returned exactly): the value of a named parameter that is not the last segment and not one of two
+// adjacent one-byte parameters ends at the FIRST occurrence of the following literal (ComparePart) in the rest of the
+// path - wherever that is, also when the literal itself runs on across a '/' (".v1/meta") -; if the text before it holds
+// a '/', nothing is captured; if the literal does not occur, everything is taken (and the match fails at the literal).
+//@   ensures [C03 C02] named-value-ends-at-first-occurrence-of-the-next-literal: !segment.IsLast && !segment.IsGreedy && segment.Length == 0 && len(segment.ComparePart) > 1 ==>
+//@ ..    result == ite(strIndex(s, segment.ComparePart) == -1, len(s), ite(noSlash(s[:strIndex(s, segment.ComparePart)]), strIndex(s, segment.ComparePart), 0))
+//@   ensures [C03 C02] named-value-ends-at-first-occurrence-of-the-next-byte: !segment.IsLast && !segment.IsGreedy && segment.Length == 0 && len(segment.ComparePart) == 1 ==>
+//@ ..    forall(q, 0, len(s), s[q] == segment.ComparePart[0] && forall(k, 0, q, s[k] != segment.ComparePart[0]) ==> result == ite(noSlash(s[:q]), q, 0)) &&
+//@ ..    (forall(k, 0, len(s), s[k] != segment.ComparePart[0]) ==> result == len(s))
 
 // v is a piece of the request path p
 // (stated as "a prefix of a suffix of p": the suffix p[fa:] is a term with the one bound variable, which the solvers can match)
@@ -358,16 +368,26 @@ package fiber
 //   routeParser  the parse of the NORMAL FORM - not of the path as registered: its literals are compared byte-wise with
 //                the (folded, trimmed) detection path, and its first literal is the key the route is filed under;
 //   Params       the parameter names of the path AS REGISTERED (they keep their letter case);
-//   star, root   the shortcut flags: star exactly for "/*", root only for "/".
+//   star, root   the shortcut flags: star exactly when the normal form AS WRITTEN is "/*" (an escaped star, `/\*`, is the
+//                literal path "/*" and not the catch-all), root only for "/";
+//   constraints  EXCEPT for what the constraints are told: the parse of the normal form is case-folded, but the data
+//                of a constraint (regex text, datetime layout) and the name a custom constraint is looked up by are those
+//                of the pattern AS DECLARED (dataAsDeclared, zz_contracts_c02_verif.go: the k-th parameter of the stored
+//                parser has Data/RegexCompiler/Name of the k-th parameter of the parse of Path);
+//   customConstraints  the route remembers the custom constraints of the application(s) it was registered in.
 // Both ways a route comes into a stack establish it, under this one name (obligation `route-as-registered`):
 //   (*App).register          for every route it hands to addRoute (directly registered routes, Use copies, mount markers);
 //   (*App).addPrefixToRoute  for every clone that processSubAppsRoutes splices in for a mounted sub-app.
 // segsOf/paramsOf name the outcome of a parse within one activation (slice values): the macro is a postcondition of the
 // registration step, not a stored object invariant; its state-based core is leadingLiteral below.
-//@ macro registeredAs(app, r, P) = normalForm(app.config.CaseSensitive, app.config.StrictRouting, r.Path, P) && r.path == unescaped(P) &&
-//@ ..  r.routeParser.segs == segsOf(P, epoch) && r.routeParser.params == paramsOf(P, epoch) && r.Params == paramsOf(r.Path, epoch) &&
-//@ ..  r.star == (r.path == "/*") && (r.root ==> r.path == "/")
-//@ macro routeAsRegistered(app, r) = existsS(P, registeredAs(app, r, P))
+// (S: the stored segment list r.routeParser.segs under the name the establishing function knows it by;
+//  D: the segment list of the parse of r.Path, the pattern as declared - a typed handle for segsOf(r.Path, epoch), whose
+//  elements a clause can only read through a Go-typed value)
+//@ macro registeredAs(app, r, P, S) = normalForm(app.config.CaseSensitive, app.config.StrictRouting, r.Path, P) && r.path == unescaped(P) &&
+//@ ..  r.routeParser.segs == S && S == segsOf(P, epoch) && r.routeParser.params == paramsOf(P, epoch) && r.Params == paramsOf(r.Path, epoch) &&
+//@ ..  r.star == (P == "/*") && (r.root ==> r.path == "/")
+//@ macro registeredAsDeclared(app, r, P, S, D) = registeredAs(app, r, P, S) && D == segsOf(r.Path, epoch) && dataAsDeclared(S, D)
+//@ macro routeAsRegistered(app, r, S, D) = existsS(P, registeredAsDeclared(app, r, P, S, D))
 // every bucket of the lookup index holds well-formed routes
 //@ macro wfTrees(app) = forallI(m, forallI(h, 0 <= m && m < len(app.treeStack) ==> forall(i, 0, len(app.treeStack[m][h]), wfRoute(app.treeStack[m][h][i]))))
 //@ macro dpOf(c) = str(c.detectionPath)
